@@ -129,6 +129,12 @@ def check_vector(v):
                         ec = count_kmers(seqs, k, axis=-1)
                         d_ = {str(kk): [int(x) for x in np.asarray(vv).tolist()] for kk, vv in ec.as_dict().items() if np.any(vv)}
                         m_ = [[int(x) for x in row] for row in np.asarray(ec.counts).tolist()]
+                        pr = np.asarray(ec.proportions.data)
+                        for j in range(len(rows)):
+                            tot = sum(m_[j])
+                            for q, c_ in enumerate(m_[j]):
+                                if abs(float(pr[j][q]) - (c_ / tot if tot else 0.0)) > 1e-12:
+                                    return "proportions of row %d are not its counts over its own total" % j, [float(x) for x in pr[j]], m_[j]
                         return d_, {(j, lab(km)): m_[j][ec.alphabet.index(lab(km))] for j in range(len(rows)) for km in expc}
                     rc = [{tuple(mapw(km)): c for km, c in row} for row in v["rowcounts"][k - 1]]
                     wd = {lab(km): [rc[j].get(km, 0) for j in range(len(rows))] for km in expc}
@@ -301,6 +307,46 @@ def validate_traces(ctx, traces):
     return bad, len(good)
 
 
+LET = "ACT"
+
+
+def check_regex(v):
+    """One state of spec/Regex.tla: the pattern rolled over the ragged sequences."""
+    import bionumpy as bnp
+    from bionumpy.sequence.string_matcher import RegexMatcher
+    from bionumpy.encodings.alphabet_encoding import AlphabetEncoding
+    rows, pat = v["rows"], v["pat"]
+    texts = ["".join(LET[c - 1] for c in r) for r in rows]
+
+    def render(e):
+        if e["kind"] == "lit":
+            return LET[e["c"] - 1]
+        if e["kind"] == "any":
+            return "."
+        if e["kind"] == "cls":
+            return "[" + "".join(LET[c - 1] for c in sorted(e["set"])) + "]"
+        return ".{%d,%d}" % (e["lo"], e["hi"])
+    ptxt = "".join(render(e) for e in pat)
+    if not any(texts):
+        return {"n": 0, "nt": [], "bad": []}
+    bad = []
+    want = [[bool(x) for x in r] for r in v["result"]]
+    for ename, enc in (("ACT", AlphabetEncoding("ACT")), ("ACGT", bnp.DNAEncoding)):
+        o = outcome(lambda: [[bool(x) for x in r] for r in RegexMatcher(ptxt, encoding=enc).rolling_window(bnp.as_encoded_array(texts, enc), mode="same").tolist()])
+        if o != ("ok", want):
+            where = None
+            if o[0] == "ok" and [len(r) for r in o[1]] == [len(r) for r in want]:
+                for r, (w, g) in enumerate(zip(want, o[1])):
+                    for i, (a, b) in enumerate(zip(w, g)):
+                        if a != b and where is None:
+                            minlen = sum(1 if e["kind"] != "gap" else e["lo"] for e in pat)
+                            where = {"row": r, "pos": i, "want": a, "got": b, "window_runs_past_the_row": i + minlen > len(w), "last_row": r == len(want) - 1}
+            bad.append({"what": "RegexMatcher differs from matching the pattern inside each row", "tags": {"op": "regex", "alphabet": ename, "window": 0, "view": False,
+                        "past_row_end": bool(where and where["window_runs_past_the_row"])},
+                        "vector": v, "case": {"texts": texts, "pattern": ptxt}, "expected": want, "observed": where or o})
+    return {"n": 2, "nt": [json.dumps(["regex", rows, ptxt])] if len(rows) > 1 else [], "bad": bad}
+
+
 def check_label_order(job):
     """k-mer counts of the same rows over two alphabets of equal size, in one order, in a process where nothing was counted before: the
     counts must be reported under the k-mer texts of the alphabet in use (Windows.tla!Counts names k-mers by their letters)."""
@@ -342,6 +388,12 @@ def run(ctx):
     import itertools as _it
     lv = next(v for v in vectors if len(v["rows"]) == 2 and all(len(r) >= 3 for r in v["rows"]) and len({tuple(r) for r in v["rows"]}) == 2)
     ctx.absorb(core.pmap_isolated(check_label_order, [(list(p), lv, 2) for p in _it.permutations(["ACGT", "ACTG", "ACGU"], 2)]))
+    # motif patterns (spec/Regex.tla): letters, '.', classes and gaps rolled over ragged sequences - a match ends inside the row it starts in
+    rres = ctx.tlc("MC_Regex", tag="MC_Regex", spec="Spec", workers=8,
+                   constants={"Letters": [1, 2, 3], "NRows": 2, "MaxLen": 3 if quick else 4, "Patterns": "<- PatSmall" if quick else "<- PatSet"},
+                   invariants=["RowLocal", "NothingPastTheEnd", "Emit"], properties=["Local"], coverage=True)
+    ctx.require_actions(rres, "MC_Regex", ["NewRow", "AddLetter"])
+    ctx.absorb(core.pmap(check_regex, rres.vectors, chunk=100))
     ntr = 400 if quick else 4000
     traces = core.pmap(record_trace, [(i, ctx.seed * 7919 + i) for i in range(ntr)], chunk=50)
     bad, nval = validate_traces(ctx, traces)
